@@ -14,11 +14,22 @@ def search():
     for allowed in [None] + subsets:
         for req in subsets:
             ok = allowed is None or req <= allowed
-            for entry in ("metabolize-auto", "metabolize-forced", "execute_tool_call", "tool-loop", "registered-function"):
+            for entry, prior in itertools.product(("metabolize-auto", "metabolize-forced", "execute_tool_call", "tool-loop", "registered-function"),
+                                                  ("none", "same-name-cleared-first", "capabilities-raised-in-place")):
                 n += 1
                 ran = []
                 m = Mitochondria(allowed_capabilities=allowed, silent=True)
-                if entry == "registered-function":
+                if prior != "none":
+                    # history: a harmless tool of the same name was registered and called successfully before (a cached clearance must not carry over)
+                    t0 = SimpleTool(name="t", description="d", func=lambda *a, **k: 0, required_capabilities=set())
+                    with contextlib.redirect_stdout(io.StringIO()):
+                        m.engulf_tool(t0)
+                        m.metabolize("t(1)")
+                        m.execute_tool_call(ToolCall(id="0", name="t", arguments={}))
+                if prior == "capabilities-raised-in-place" and entry != "registered-function":
+                    t0.func = lambda *a, **k: ran.append(1) or 1
+                    t0.required_capabilities = set(req)
+                elif entry == "registered-function":
                     m.register_function("t", lambda *a, **k: ran.append(1) or 1, required_capabilities=set(req))
                 else:
                     m.engulf_tool(SimpleTool(name="t", description="d", func=lambda *a, **k: ran.append(1) or 1,
@@ -52,7 +63,8 @@ def search():
                         Nucleus(provider=P()).transcribe_with_tools("p", m, max_iterations=2)
                         success = None
                 if not ok and ran:
-                    return n, f"{entry}: tool requiring {sorted(c.name for c in req)} ran with allowed_capabilities={None if allowed is None else sorted(c.name for c in allowed)}"
+                    return n, (f"{entry} (history: {prior}): tool requiring {sorted(c.name for c in req)} ran with "
+                               f"allowed_capabilities={None if allowed is None else sorted(c.name for c in allowed)}")
                 if not ok and success:
                     return n, f"{entry}: refusal reported as success"
                 if ok and entry != "tool-loop" and not ran:
@@ -62,7 +74,7 @@ def search():
 
 if __name__ == "__main__":
     n, bad = search()
-    out = {"status": "ok" if bad is None else "violation", "bound": "allowed/required capability sets over 3 capabilities x 5 entry points", "cases": n}
+    out = {"status": "ok" if bad is None else "violation", "bound": "allowed/required capability sets over 3 capabilities x 5 entry points x 3 registration histories", "cases": n}
     if bad:
         out["detail"] = bad
         os.makedirs("replays", exist_ok=True)
